@@ -3,12 +3,12 @@ from . import poseidon
 from ..runner import Ob
 META = dict(
     functions=['PoseidonGoldilocks::linear_hash_seq', 'linear_hash (AVX2)', 'linear_hash_avx512 (two inputs at a time)'],
-    bounds={'quick': 'input lengths 0..34 (every residue mod 8, both sides of the <=4 pass-through threshold, first/middle/last block positions); all element values', 'thorough': 'lengths 0..67'},
+    bounds={'quick': 'input lengths 0..67 (every residue mod 8, both sides of the <=4 pass-through threshold, first/middle/last block positions); all element values', 'thorough': 'lengths 0..131'},
     outside=['lengths above the bound (the loop body is the same; no induction over the length is claimed)'], stubs=[],
     assumptions=['hash_full_result* is summarised by an uninterpreted 12->12 permutation PERM (justified by C06); equalities are pure EUF', 'the input object holds exactly the declared number of words, so any over-read is an out-of-bounds event'],
     trusted_base=['reference sponge gv/props/poseidon.py:sponge'])
 def obligations(ctx):
-    Lm = 67 if ctx.thorough else 34
+    Lm = 131 if ctx.thorough else 67
     return [Ob('%s/L%d' % (v, L), poseidon.ob_lh, (v, L), weight=L + 1) for v in ('seq', 'avx', 'avx512') for L in range(0, Lm + 1)]
 def validate(ctx):
     rng = ctx.rng('C07'); n = 0; bad = []
